@@ -224,7 +224,7 @@ def check_status_file(rep, ctx):
         for e in rn:
             n += 1
             tmpw = [x for x in wr if name_of(x.rargs[0]) == "status.tag.tmp" and ev.index(x) < ev.index(e)]
-            ok = name_of(e.rargs[0]) == "status.tag.tmp" and name_of(e.rargs[1]) == "status.tag" and len(tmpw) == 1 and implied(r, tmpw[0].ret.discr() == 0)
+            ok = name_of(e.rargs[0]) == "status.tag.tmp" and name_of(e.rargs[1]) == "status.tag" and len(tmpw) == 1 and implied(r, tmpw[0].ret.discr() != 1)        # the write did not fail (however the code spells the test: match Ok / if let Err)
             rep.add(Query("write_provision_state path %d: status.tag is replaced by rename(status.tag.tmp) after a successful complete write of the tmp file" % i, "holds" if ok else "violated", "", 0, "mirsym+z3",
                           key="C16.file.rename-after-write", reproduced=None))
     rep.add(Query("witness: write_provision_state renames on some path", "witness-hit" if n else "witness-missed", "%d" % n, 0, "mirsym"))
